@@ -11,7 +11,7 @@ CONSTANTS
   PowOn = FALSE
   Families = {"rate", "seed"}
   RateCmds = {"FETCH-STREAM"}
-  MaxHist = 8
+  MaxHist = 99
   CheckLemma = FALSE
   DevStopUnchecked = FALSE
   DevFetchOutUnchecked = FALSE
